@@ -563,6 +563,52 @@ theorem mk_pw (L : Laws I WT) (nm att : String) (ann : Ann) (args : Term) :
       · exact mk_dflt I ρ _ _ _ hs
     · exact mk_dflt I ρ _ _ _ hs
 
+/-- **Token-level shape argument** (shared by the validator's Reshape rules and by the proof that the
+    code's `_shapes_compatible` guard is sound): two tensors whose (true) shape annotations are the same
+    token list without unknowns, or agree on equal positive literals everywhere except at one position,
+    and that hold the same number of elements, have the same rank and the same extents — for every
+    binding of the symbols. -/
+theorem tokens_same_shape (so sa : List Dim) (r x : Tensor α)
+    (hr : shapeOK I so r) (hx : shapeOK I sa x) (hnum : numel r = numel x)
+    (hok : ((so = sa && so.all (fun d => !d.isUnk)) || oneOff so sa) = true) :
+    r.rank = x.rank ∧ ∀ k, k < x.rank → r.dim k = x.dim k := by
+  obtain ⟨r1, d1⟩ := hr
+  obtain ⟨r2, d2⟩ := hx
+  simp only [Bool.or_eq_true] at hok
+  rcases hok with hc | hoo
+  · simp only [Bool.and_eq_true, decide_eq_true_eq, List.all_eq_true] at hc
+    obtain ⟨heq, hknown⟩ := hc
+    subst heq
+    refine ⟨by rw [r1, r2], ?_⟩
+    intro k hk
+    have hk' : k < so.length := by omega
+    have a1 := d1 k hk'
+    have a2 := d2 k hk'
+    have hnu := hknown so[k] (List.getElem_mem hk')
+    cases hd : so[k] with
+    | known m => simp only [hd, dimOK] at a1 a2; omega
+    | sym sy => simp only [hd, dimOK] at a1 a2; omega
+    | unk => simp [hd, Dim.isUnk] at hnu
+  · obtain ⟨hlen, k, hk, hothers⟩ := oneOff_spec so sa hoo
+    have hrank : r.rank = x.rank := by rw [r1, r2, hlen]
+    have hoth : ∀ j, j < x.rank → j ≠ k → r.dim j = x.dim j ∧ 0 < r.dim j := by
+      intro j hj hne
+      have h1 : j < so.length := by omega
+      have h2 : j < sa.length := by omega
+      obtain ⟨m, hm, e1, e2⟩ := hothers j h1 h2 hne
+      have a1 := d1 j h1
+      have a2 := d2 j h2
+      simp only [e1, dimOK] at a1
+      simp only [e2, dimOK] at a2
+      omega
+    simp only [numel, hrank] at hnum
+    have hkd : r.dim k = x.dim k := prodTo_cancel _ _ k x.rank (by omega) hoth hnum
+    refine ⟨hrank, ?_⟩
+    intro j hj
+    by_cases hjk : j = k
+    · rw [hjk]; exact hkd
+    · exact (hoth j hj hjk).1
+
 /-- core of the Reshape rules: a tensor `r` with the (true) annotation `ann` that has as many
     elements as `x` and is `x` as soon as rank and extents agree, IS `x` when `reshapeIdOk`. -/
 theorem reshapeIdOk_eq (ann : Ann) (a : Term) (x r : Tensor α)
@@ -573,45 +619,9 @@ theorem reshapeIdOk_eq (ann : Ann) (a : Term) (x r : Tensor α)
   unfold reshapeIdOk at hok
   split at hok
   · rename_i so sa hso hsa'
-    simp only [Bool.or_eq_true] at hok
-    rcases hok with hc | hoo
-    · simp only [Bool.and_eq_true, decide_eq_true_eq, List.all_eq_true] at hc
-      obtain ⟨heq, hknown⟩ := hc
-      subst heq
-      obtain ⟨r1, d1⟩ := hann.2 so hso
-      obtain ⟨r2, d2⟩ := shapeOf_sound I ρ a hsa so hsa' x hx
-      apply hsame
-      · rw [r1, r2]
-      · intro k hk
-        have hk' : k < so.length := by omega
-        have a1 := d1 k hk'
-        have a2 := d2 k hk'
-        have hnu := hknown so[k] (List.getElem_mem hk')
-        cases hd : so[k] with
-        | known m => simp only [hd, dimOK] at a1 a2; omega
-        | sym sy => simp only [hd, dimOK] at a1 a2; omega
-        | unk => simp [hd, Dim.isUnk] at hnu
-    · obtain ⟨hlen, k, hk, hothers⟩ := oneOff_spec so sa hoo
-      obtain ⟨r1, d1⟩ := hann.2 so hso
-      obtain ⟨r2, d2⟩ := shapeOf_sound I ρ a hsa sa hsa' x hx
-      have hrank : r.rank = x.rank := by rw [r1, r2, hlen]
-      have hoth : ∀ j, j < x.rank → j ≠ k → r.dim j = x.dim j ∧ 0 < r.dim j := by
-        intro j hj hne
-        have h1 : j < so.length := by omega
-        have h2 : j < sa.length := by omega
-        obtain ⟨m, hm, e1, e2⟩ := hothers j h1 h2 hne
-        have a1 := d1 j h1
-        have a2 := d2 j h2
-        simp only [e1, dimOK] at a1
-        simp only [e2, dimOK] at a2
-        omega
-      simp only [numel, hrank] at hnum
-      have hkd : r.dim k = x.dim k := prodTo_cancel _ _ k x.rank (by omega) hoth hnum
-      apply hsame hrank
-      intro j hj
-      by_cases hjk : j = k
-      · rw [hjk]; exact hkd
-      · exact (hoth j hj hjk).1
+    obtain ⟨h1, h2⟩ := tokens_same_shape I so sa r x (hann.2 so hso)
+      (shapeOf_sound I ρ a hsa sa hsa' x hx) hnum hok
+    exact hsame h1 h2
   · exact absurd hok (by simp)
 
 theorem reshapeId_sound (L : Laws I WT) (ann : Ann) (a sT : Term) (x z : Tensor α)
